@@ -41,7 +41,7 @@ VARIABLES subs,      \* listener -> events its class maps (fixed after Init)
           stored,    \* transform -> [position, rotation, scale]: what a read of the property returns
           reg,       \* transform -> listeners registered on it
           log,       \* ghost: bag (function entry -> count) of callbacks run by the last call
-          call       \* ghost: the last public call [k, t, p]
+          call       \* ghost: the last public call [k, t, p, v] (v = the assigned value)
 
 vars == <<subs, ctor, built, stored, reg, log, call>>
 
@@ -79,13 +79,13 @@ Notify(t, ev, x) == [e \in {<<l, ev, x>> : l \in {m \in reg[t] : ev \in subs[m]}
 Init == /\ subs \in SubsChoices /\ ctor \in CtorChoices /\ reg \in RegChoices
         /\ built = FALSE
         /\ stored = [t \in T |-> [p \in Props |-> Used]]
-        /\ log = NoLog /\ call = [k |-> "none", t |-> "-", p |-> "-"]
+        /\ log = NoLog /\ call = [k |-> "none", t |-> "-", p |-> "-", v |-> Used]
 
 Build == /\ ~built /\ built' = TRUE
          /\ stored' = [t \in T |-> [p \in Props |->
                           StoreForm(t, p, IF ctor[t][p] = Dflt THEN DefaultOf(t, p) ELSE ctor[t][p])]]
          /\ ctor' = [t \in T |-> [p \in Props |-> Used]]
-         /\ log' = NoLog /\ call' = [k |-> "build", t |-> "-", p |-> "-"]
+         /\ log' = NoLog /\ call' = [k |-> "build", t |-> "-", p |-> "-", v |-> Used]
          /\ UNCHANGED <<subs, reg>>
 
 Set(t, p, v) ==
@@ -94,7 +94,7 @@ Set(t, p, v) ==
            sent == IF Scalar(t, p) /\ ~RotationNotifiesStored THEN v ELSE kept IN
          /\ stored' = [stored EXCEPT ![t][p] = kept]
          /\ log' = Notify(t, EventOf(p), sent)
-    /\ call' = [k |-> "set", t |-> t, p |-> p]
+    /\ call' = [k |-> "set", t |-> t, p |-> p, v |-> v]
     /\ UNCHANGED <<subs, ctor, built, reg>>
 
 SetPosition(t, v) == v \in VecVals /\ Set(t, "position", v)
@@ -104,13 +104,13 @@ SetScale(t, v) == v \in VecVals /\ Set(t, "scale", v)
 AddListener(t, l) ==
     /\ WithListenerOps /\ built
     /\ reg' = [reg EXCEPT ![t] = @ \cup {l}]
-    /\ log' = NoLog /\ call' = [k |-> "add", t |-> t, p |-> l]
+    /\ log' = NoLog /\ call' = [k |-> "add", t |-> t, p |-> l, v |-> Used]
     /\ UNCHANGED <<subs, ctor, built, stored>>
 
 RemoveListener(t, l) ==
     /\ WithListenerOps /\ built
     /\ reg' = [reg EXCEPT ![t] = @ \ {l}]
-    /\ log' = NoLog /\ call' = [k |-> "remove", t |-> t, p |-> l]
+    /\ log' = NoLog /\ call' = [k |-> "remove", t |-> t, p |-> l, v |-> Used]
     /\ UNCHANGED <<subs, ctor, built, stored>>
 
 AllVals == VecVals \cup {N(i) : i \in Rot}
@@ -156,11 +156,11 @@ OncePerListener ==
 DefaultsNotShared ==
     [][built => \A u \in T : (call'.t # u) => stored'[u] = stored[u]]_vars
 
-\* an assignment changes exactly the assigned property, to the (reduced) assigned value
+\* an assignment changes exactly the assigned property of the assigned transform, to the assigned
+\* value (2D rotation: to its representative in [0, 360)); every other call leaves all values alone
 StoresAssigned ==
-    [][\A t \in T, v \in AllVals :
-         /\ SetPosition(t, v) => stored' = [stored EXCEPT ![t]["position"] = v]
-         /\ SetScale(t, v) => stored' = [stored EXCEPT ![t]["scale"] = v]
-         /\ SetRotation(t, v) => stored' = [stored EXCEPT ![t]["rotation"] =
-                                             IF t \in T2 THEN N(v[2] % 360) ELSE v]]_vars
+    [][built => IF call'.k = "set"
+                THEN stored' = [stored EXCEPT ![call'.t][call'.p] =
+                                   IF call'.t \in T2 /\ call'.p = "rotation" THEN N(call'.v[2] % 360) ELSE call'.v]
+                ELSE stored' = stored]_vars
 =============================================================================
